@@ -360,7 +360,8 @@ theorem c08_unifiedRecords_content (h : Heap) (c : Nat) (hn : AllInv1 h)
     (hidx : ∀ e ∈ (h.cont c).idMap, ∀ r ∈ e.2, r < h.recs.size ∧ PairsOk (h.recCell r).r)
     (h' : Heap) (rs : List Nat) (hres : h.unifiedRecords c = (h', .ok rs)) :
     ∃ mp, rs = placeMerged mp (h.cont c).records ∧ GoodMap h h' (groupsOf h c) mp ∧
-      (∀ r, r < h.recs.size → h'.recCell r = h.recCell r) ∧ AllInv1 h' := by
+      (∀ r, r < h.recs.size → h'.recCell r = h.recCell r) ∧ AllInv1 h' ∧
+      unifiedRecords.mergeAll h [] (groupsOf h c) = (h', .ok mp) := by
   unfold unifiedRecords at hres
   simp only [] at hres
   have hgroups : (((h.cont c).idMap.flatMap (fun e => (groupByKind h e.2).map (·.2))).filter (fun g => g.length > 1)) = groupsOf h c := rfl
@@ -378,6 +379,6 @@ theorem c08_unifiedRecords_content (h : Heap) (c : Nat) (hn : AllInv1 h)
           obtain ⟨a1, a2⟩ := groupsOf_members h c g hg
           exact ⟨a1, fun r hr => by obtain ⟨e, he, hre⟩ := a2 r hr; exact hidx e he r hre⟩)
         ⟨fun e he => absurd he (by simp), fun g hg => absurd hg (by simp)⟩ h1 mp hma
-      exact ⟨mp, rfl, by simpa using f1, f2, f3⟩
+      exact ⟨mp, rfl, by simpa using f1, f2, f3, rfl⟩
 
 end Prov.C08
